@@ -9,3 +9,6 @@ import WrglModel.Props.C14
 #print axioms Wrgl.C14_unguarded_double_commit
 #print axioms Wrgl.C14_unguarded_discard_side_effect
 #print axioms Wrgl.C14_discard_fault
+#print axioms Wrgl.C14_completable_across_advances
+#print axioms Wrgl.C14_rerun_keeps_moved_branch
+#print axioms Wrgl.C14_advance_frame
